@@ -259,6 +259,36 @@ fn rt_inner<F: Flavour>(sc: &RtSc, stats: &mut Stats) -> Option<Violation> {
     if let Err(m) = w2.check_invariant() {
         return Some(Violation::new("round-trip-mismatch", format!("the deserialised graph is malformed: {m}")));
     }
+    // the same bytes read a second time give a second, separate copy; the first stays as it was
+    match F::g_de(&bytes, sc.wire) {
+        Ok(g2b) => {
+            stats.inc("documents_deserialised_twice");
+            let (a, b) = (canon::<F>(&g2b), canon::<F>(&g2));
+            if a != src || b != src {
+                return Some(Violation::new(
+                    "round-trip-mismatch",
+                    format!(
+                        "{} {:?}: deserialising the same bytes a second time: second copy {}, first copy afterwards {}",
+                        sc.flavour,
+                        sc.wire,
+                        if a == src { "equal to the source".to_string() } else { format!("{a:?}") },
+                        if b == src { "equal to the source".to_string() } else { format!("{b:?}") }
+                    ),
+                ));
+            }
+            // changing the second copy leaves the first alone
+            if let Some((_, n)) = F::g_iter(&g2b).into_iter().next() {
+                F::isolate(&n);
+                if canon::<F>(&g2) != src {
+                    return Some(Violation::new(
+                        "round-trip-mismatch",
+                        format!("{} {:?}: two copies deserialised from the same bytes share state: isolating a node of one changed the other", sc.flavour, sc.wire),
+                    ));
+                }
+            }
+        }
+        Err(e) => return Some(Violation::new("de-failed", format!("deserialising the same bytes a second time failed: {e}"))),
+    }
     // the copy is a graph like any other: it round-trips again to the same graph
     let again = F::g_ser(&g2, sc.wire).and_then(|b| F::g_de(&b, sc.wire));
     match again {
